@@ -1103,6 +1103,9 @@ func (p *Printer) stmt(s *Stmt) {
 	var startRedirs int
 	if s.Cmd != nil {
 		startRedirs = p.command(s.Cmd, s.Redirs)
+		// Any semicolons written so far belong to statements nested in
+		// the command, such as a case clause's ";;", not to this statement.
+		p.wroteSemi = false
 	}
 	p.incLevel()
 	for _, r := range s.Redirs[startRedirs:] {
